@@ -8,6 +8,8 @@
 (*               u = first tuple of the scanned (type, table)); r = integer     *)
 (*               reply, rl = list reply (keys), d = dump: d[x] = enumeration of *)
 (*               tuple x as a sequence of <<sub, value>> pairs                  *)
+(*               limit probes: op = "limit", a = key length, b = sub-key length, *)
+(*               rl = <<value length, length of table:key>>, r = -998 / 0        *)
 (* The first disagreement of a segment is printed as                            *)
 (* <<"MISMATCH", line, expected reply, set of <<tuple, expected dump>> that     *)
 (* differ>> and the rest of the segment is skipped.                             *)
@@ -24,14 +26,18 @@ TInit == st = EmptyStore /\ ttl = {} /\ l = 1 /\ bad = FALSE
 
 Valid ==
   \/ E.op \in {"deltable", "runexpiry"}
+  \/ E.op = "limit" /\ Len(E.rl) = 2
   \/ E.op = "keys" /\ E.u \in Tups
   \/ E.u \in Tups /\ E.op \in OpsOf(TyOf(E.u))
 
 \* a whole-table delete that was refused (reply -998) must change nothing
 Refused == E.op = "deltable" /\ E.r = -998
 ExpSt  == IF Refused THEN st ELSE After(st, E.op, E.u, E.a, E.b)
-ExpR   == IF Refused THEN -998 ELSE ReplyOf(st, E.op, E.u, E.a, E.b)
-ExpRl  == IF E.op = "keys" THEN KeysOf(st, TyOf(E.u), TabOf(E.u)) ELSE <<>>
+ExpR   == IF Refused THEN -998
+          ELSE IF E.op = "limit" THEN LimitReply(E.a, E.rl[2], E.b, E.rl[1], E.r)   \* a = key, b = sub-key, rl = <<value, table:key>> lengths
+          ELSE ReplyOf(st, E.op, E.u, E.a, E.b)
+ExpRl  == IF E.op = "keys" THEN KeysOf(st, TyOf(E.u), TabOf(E.u))
+          ELSE IF E.op = "limit" THEN E.rl ELSE <<>>
 Diff   == IF Len(E.d) = NTup THEN {x \in Tups : Dump(ExpSt, x) # E.d[x]} ELSE {}
 
 Mismatch == /\ bad' = TRUE
